@@ -45,6 +45,12 @@ static inline uint64_t myth_get_rdtsc() {
 }
 
 static inline int hr_gettime(struct timespec * ts) {
+#ifdef MYTH_VERIF
+  {
+    int (*f_)(struct timespec *) = myth_verif_clock_fn;
+    if (f_) return f_(ts);
+  }
+#endif
 #if defined(HAVE_LIBRT)
   return clock_gettime(CLOCK_REALTIME, ts);
 #else
